@@ -123,15 +123,22 @@ def offset(I, st, inst, args):
 def compare_bytes(I, st, inst, args):
     a, b, n = args
     n = I.concrete_int(st, n)
+    xs, ys = [], []
     for i in range(n):
-        x = I.read(st, Ptr(a.cell, a.path[:-1] + (a.path[-1] + i,)))
-        y = I.read(st, Ptr(b.cell, b.path[:-1] + (b.path[-1] + i,)))
-        if isinstance(x, int) and isinstance(y, int):
+        xs.append(I.read(st, Ptr(a.cell, a.path[:-1] + (a.path[-1] + i,))))
+        ys.append(I.read(st, Ptr(b.cell, b.path[:-1] + (b.path[-1] + i,))))
+    if all(isinstance(x, int) for x in xs + ys):
+        for x, y in zip(xs, ys):
             if x != y:
                 return -1 if x < y else 1
-        else:
-            raise Unsupported("symbolic compare_bytes")
-    return 0
+        return 0
+    # symbolic memcmp: lexicographic comparison as a nested if-then-else over 32-bit results
+    res = z3.BitVecVal(0, 32)
+    for x, y in reversed(list(zip(xs, ys))):
+        zx = x if is_sym(x) else z3.BitVecVal(x, 8)
+        zy = y if is_sym(y) else z3.BitVecVal(y, 8)
+        res = z3.If(zx == zy, res, z3.If(z3.ULT(zx, zy), z3.BitVecVal(-1, 32), z3.BitVecVal(1, 32)))
+    return I.norm(res, None)
 
 
 def raw_eq(I, st, inst, args):
